@@ -16,6 +16,10 @@ mod git_commit_parser;
 mod pos_conv;
 // --- harness ---
 mod common;
+mod c12;
+mod c10;
+mod c09;
+mod lsclient;
 mod c16;
 mod c07;
 mod c04;
@@ -102,6 +106,10 @@ fn main() {
         "C04" => c04::run(&ctx),
         "C07" => c07::run(&ctx),
         "C16" => c16::run(&ctx),
+        "C09" => c09::run(&ctx),
+        "C10" => c10::run(&ctx),
+        "C10-child" => c10::run(&ctx),
+        "C12" => c12::run(&ctx),
         _ => {
             eprintln!("unknown property {}", prop);
             std::process::exit(2);
